@@ -15,9 +15,9 @@ Section RT.
   Hypothesis HM : c_mask C = M.
   Let C' := with_mask C M'.
 
-  (* twins with the same unread records (the reader is handed the batch separately; what it queues itself -
-     the IN_IGNORED of the watches it removes, repair F10 - is the same on both sides) *)
-  Definition kw0 (k k' : kst) : Prop := kwt M M' k k' /\ k_queue k = k_queue k'.
+  (* twins: same watches up to their masks, same counters (the reader never looks at the kernel queue; what it queues
+     itself - the IN_IGNORED of the watches it removes, repair F10 - is tracked separately where it matters) *)
+  Definition kw0 (k k' : kst) : Prop := kwt M M' k k'.
 
   Definition rel3 (a : rstate * kst * list raw) (b : rstate * kst * list raw) : Prop :=
     fst (fst a) = fst (fst b) /\ snd a = snd b /\ kw0 (snd (fst a)) (snd (fst b)).
@@ -36,19 +36,19 @@ Section RT.
     | _, _ => False
     end.
   Proof.
-    intros [T Q]. unfold add_watch. cbn [C' with_mask c_faults c_mask]. rewrite HM.
+    intros T. unfold add_watch. cbn [C' with_mask c_faults c_mask]. rewrite HM.
     destruct (mem_nat (calls r) (c_faults C)); [exact I|].
     pose proof (kadd_watch_twin M M' k k' t p T) as H.
     destruct (kadd_watch k t p M) as [[k1 wd]|], (kadd_watch k' t p M') as [[k1' wd']|]; try contradiction; [|exact I].
     destruct H as [-> [T1 [E1 E1']]]. split; [reflexivity|]. split; [reflexivity|].
-    split; [exact T1|]. congruence.
+    exact T1.
   Qed.
 
   Lemma sim_dirs_twin t root ds : forall r k k' acc, kw0 k k' ->
     rel3 (sim_dirs C r k t root ds acc) (sim_dirs C' r k' t root ds acc).
   Proof.
     induction ds as [|d ds IH]; intros r k k' acc K; cbn [sim_dirs].
-    - repeat split; try reflexivity; apply K.
+    - split; [reflexivity | split; [reflexivity | exact K]].
     - pose proof (add_watch_twin r k k' t (join root d) K) as H.
       destruct (add_watch C r k t (join root d)) as [[[r1 k1] wd]|],
                (add_watch C' r k' t (join root d)) as [[[r1' k1'] wd']|]; try contradiction.
@@ -66,7 +66,7 @@ Section RT.
     orel (simulate C r k t w acc) (simulate C' r k' t w acc).
   Proof.
     induction w as [|[[root ds] fls] w IH]; intros r k k' acc K; cbn [simulate].
-    - repeat split; try reflexivity; apply K.
+    - split; [reflexivity | split; [reflexivity | exact K]].
     - pose proof (sim_dirs_twin t root ds r k k' acc K) as H.
       destruct (sim_dirs C r k t root ds acc) as [[r1 k1] a1], (sim_dirs C' r k' t root ds acc) as [[r1' k1'] a1'].
       destruct H as [H1 [H2 H3]]. cbn [fst snd] in *. subst r1' a1'.
@@ -93,20 +93,20 @@ Section RT.
     kw0 (snd (fst (ro_move C t r k e wdp))) (snd (fst (ro_move C' t r k' e wdp))).
   Proof.
     intros K. unfold ro_move. cbn [C' with_mask c_recursive c_fix_movein c_fix_moveout].
-    destruct (is_moved_from (k_mask e)); [repeat split; try reflexivity; apply K|].
-    destruct (is_moved_to (k_mask e)); [|repeat split; try reflexivity; apply K].
+    destruct (is_moved_from (k_mask e)); [split; [reflexivity | split; [reflexivity | exact K]]|].
+    destruct (is_moved_to (k_mask e)); [|split; [reflexivity | split; [reflexivity | exact K]]].
     set (sp := match k_name e with [] => wdp | _ => join wdp (k_name e) end).
     assert (Hin : forall (b : bool) (ev : raw),
       let X := if b then let '(r', k0) := add_dirs C r k t (sp :: walk_dirs t sp) in (r', k0, ev) else (r, k, ev) in
       let Y := if b then let '(r', k0) := add_dirs C' r k' t (sp :: walk_dirs t sp) in (r', k0, ev) else (r, k', ev) in
       fst (fst X) = fst (fst Y) /\ snd X = snd Y /\ kw0 (snd (fst X)) (snd (fst Y))).
-    { intros b ev. destruct b; cbn zeta; [|repeat split; try reflexivity; apply K].
+    { intros b ev. destruct b; cbn zeta; [|split; [reflexivity | split; [reflexivity | exact K]]].
       destruct (add_dirs_twin t (sp :: walk_dirs t sp) r k k' K) as [H1 H2].
       destruct (add_dirs C r k t (sp :: walk_dirs t sp)) as [r1 k1],
                (add_dirs C' r k' t (sp :: walk_dirs t sp)) as [r1' k1']. cbn [fst snd] in *.
       subst. repeat split; try reflexivity; apply H2. }
     destruct (alookup N.eqb (k_cookie e) (mvf r)) as [msrc|].
-    - destruct (alookup beqb msrc (wfp r)); [repeat split; try reflexivity; apply K|]. apply Hin.
+    - destruct (alookup beqb msrc (wfp r)); [split; [reflexivity | split; [reflexivity | exact K]]|]. apply Hin.
     - apply Hin.
   Qed.
 
@@ -123,7 +123,7 @@ Section RT.
     destruct (alookup beqb q (wfp r)) as [wd|]; [|apply IH; exact K].
     destruct (alookup N.eqb wd (pfw r)) as [q'|]; [|apply IH; exact K].
     destruct (beqb q' q); [|apply IH; exact K].
-    apply IH. destruct K as [T Q]. destruct (krm_watch_twin M M' k k' wd T Q) as [T1 Q1]. split; assumption.
+    apply IH. apply krm_watch_kwt. exact K.
   Qed.
 
   Lemma settle_twin r k k' e : kw0 k k' ->
@@ -143,7 +143,7 @@ Section RT.
     intros K. rewrite !read_one_body_factored.
     destruct (alookup N.eqb (k_wd e) (pfw r)) as [wdp|].
     2:{ cbn [C' with_mask c_fix_moveout]. destruct (c_fix_moveout C); [|reflexivity].
-        repeat split; try reflexivity; apply K. }
+        split; [reflexivity | split; [reflexivity | exact K]]. }
     destruct (ro_move_twin t r k k' e wdp K) as [H1 [H2 H3]].
     destruct (ro_move C t r k e wdp) as [[r1 k1] ev1], (ro_move C' t r k' e wdp) as [[r1' k1'] ev1'].
     cbn [fst snd] in *. subst r1' ev1'. rewrite <- ro_ignored_twin.
@@ -154,8 +154,8 @@ Section RT.
       destruct (add_watch C r2 k1 t (r_path ev1)) as [[[r3 k3] wd]|],
                (add_watch C' r2 k1' t (r_path ev1)) as [[[r3' k3'] wd']|]; try contradiction.
       + destruct H as [-> [-> K3]]. apply simulate_twin. exact K3.
-      + repeat split; try reflexivity; apply H3.
-    - repeat split; try reflexivity; apply H3.
+      + split; [reflexivity | split; [reflexivity | exact H3]].
+    - split; [reflexivity | split; [reflexivity | exact H3]].
   Qed.
 
   Lemma read_one_twin t r k k' acc e : kw0 k k' ->
@@ -170,7 +170,7 @@ Section RT.
     orel (read_batch C t (r, k, acc) b) (read_batch C' t (r, k', acc) b).
   Proof.
     induction b as [|e b IH]; intros r k k' acc K; cbn [read_batch].
-    - repeat split; try reflexivity; apply K.
+    - split; [reflexivity | split; [reflexivity | exact K]].
     - pose proof (read_one_twin t r k k' acc e K) as H.
       destruct (read_one C t (r, k, acc) e) as [[[r1 k1] a1]|s], (read_one C' t (r, k', acc) e) as [[[r1' k1'] a1']|s'];
         try contradiction; [|exact H].
@@ -188,7 +188,7 @@ Section RT.
     unfold construct. cbn [C' with_mask c_root c_recursive].
     destruct (fisdir (c_root C) t); [|exact I].
     assert (K0 : kw0 kinit kinit).
-    { split; [|reflexivity]. constructor; try reflexivity. intros w []. }
+    { constructor; try reflexivity. intros w []. }
     pose proof (add_watch_twin rinit0 kinit kinit t (c_root C) K0) as H.
     destruct (add_watch C rinit0 kinit t (c_root C)) as [[[r1 k1] wd]|],
              (add_watch C' rinit0 kinit t (c_root C)) as [[[r1' k1'] wd']|]; try contradiction; [|exact I].
